@@ -108,6 +108,40 @@ func StrDom(n int) *Dom[string] {
 	return d
 }
 
+// J is a JSON-representable struct element: one field is omitted from the
+// document when it is empty, so a decoder that reuses its target inherits the
+// previous element's value.
+type J struct {
+	N   int    `json:"n"`
+	Tag string `json:"tag,omitempty"`
+}
+
+func jCmp(a, b J) int {
+	if c := cmp.Compare(a.N, b.N); c != 0 {
+		return c
+	}
+	return strings.Compare(a.Tag, b.Tag)
+}
+
+var jCmps = []NamedCmp[J]{
+	{"natural", jCmp},
+	{"reversed", func(a, b J) int { return jCmp(b, a) }},
+	{"by-N-only", func(a, b J) int { return cmp.Compare(a.N, b.N) }},
+	{"natural-unnormalised", func(a, b J) int { return jCmp(a, b) * magnitude(uint64(a.N)*31+uint64(len(a.Tag))+uint64(b.N)) }},
+}
+
+// JDom: alphabet values alternate between an empty and a non-empty Tag.
+func JDom(n int) *Dom[J] {
+	d := &Dom[J]{Name: "json-struct", Cmps: jCmps, Fmt: func(v J) string { return fmt.Sprintf("{%d %q}", v.N, v.Tag) }}
+	for i := 0; i < n; i++ {
+		d.Alpha = append(d.Alpha, J{(i / 2) * 6, []string{"", "urgent", "", "low"}[i%4]})
+		d.Probe = append(d.Probe, J{(i/2)*6 + 3, "p"})
+	}
+	d.Probe = append(d.Probe, J{-3, ""}, J{n*6 + 50, "zz"})
+	d.Wide = func(r *core.R) J { return J{r.Intn(1<<20) * 6, []string{"", "x", "", "y"}[r.Intn(4)]} }
+	return d
+}
+
 // SK is a struct element/key type (comparable, no natural order): generic
 // code must not depend on the element being a built-in scalar.
 type SK struct {
@@ -301,6 +335,18 @@ func sortedStrings(m map[string]bool) []string {
 	}
 	sort.Strings(out)
 	return out
+}
+
+// ruin overwrites a slice the library returned, after the monitor is done
+// with it: callers own what they get (C16), so a container that hands out its
+// own memoised view must not be able to rely on well-behaved monitors either.
+func ruin[T any](s []T) {
+	for i, j := 0, len(s)-1; i < j; i, j = i+1, j-1 {
+		s[i], s[j] = s[j], s[i]
+	}
+	if len(s) > 0 {
+		s[0] = s[len(s)-1]
+	}
 }
 
 func btoi(b bool) int {
